@@ -43,7 +43,7 @@ theorem IN_3D_fdf_row6 (i : IN_3D_fdf_In K)
   simp only [Derivation.leibniz_div, Derivation.leibniz, map_add, map_sub, map_neg, map_zero, hsqrt, hpow, D_ofNat, d1, d2, d3, hl, hm, hth, hdt,
     he0, he1, he2, he3, he4, he5, smul_eq_mul, mul_zero, zero_mul, add_zero, zero_add, mul_one, one_mul, sub_zero, zero_sub, zero_div, neg_zero]
   simp only [hq] at hw ⊢
-  simp only [hw]
+  try simp only [hw]
   field_simp
   ring1
 
@@ -77,7 +77,7 @@ theorem IN_3D_fdf_row0 (i : IN_3D_fdf_In K)
   simp only [Derivation.leibniz_div, Derivation.leibniz, map_add, map_sub, map_neg, map_zero, hsqrt, hpow, D_ofNat, d1, d2, d3, hl, hm, hth, hdt,
     he0, he1, he2, he3, he4, he5, hto0, smul_eq_mul, mul_zero, zero_mul, add_zero, zero_add, mul_one, one_mul, sub_zero, zero_sub, zero_div, neg_zero]
   simp only [hq] at hw ⊢
-  simp only [hw]
+  try simp only [hw]
   field_simp
   ring1
 
